@@ -299,6 +299,8 @@ def is_mode_guard(c):
 
 def allowed_guard(c):
     x = c.args[0] if c.op == "not" else c
+    if x.op in ("and", "or"):
+        return all(allowed_guard(y) for y in x.args)      # a boolean combination of allowed guards tests nothing else
     if x.op == "decode_ok":
         return True
     if is_len_guard(c):
